@@ -150,7 +150,10 @@ def add_schemas(tier: str, constraint: Any = None) -> List[Schema]:
 
 def embedding_schemas(tier: str) -> List[Schema]:
     V, E = D("V"), D("E")
-    return [Schema(f"embedding[idx-rank={len(lead)}]", dict(input=P("input", lead), weight=P("weight", (V, E)))) for lead in LEAD]
+    out = [Schema(f"embedding[idx-rank={len(lead)}]", dict(input=P("input", lead), weight=P("weight", (V, E)))) for lead in LEAD]
+    # rarely used options given (the indices are assumed not to hit padding_idx, as the property states)
+    out.append(Schema("embedding[idx-rank=2,padding_idx given]", dict(input=P("input", (d1, d2)), weight=P("weight", (V, E)), padding_idx=sp.Symbol("padding_idx", integer=True, nonnegative=True))))
+    return out
 
 
 def norm_schemas(tier: str, fn: str) -> List[Schema]:
@@ -247,7 +250,11 @@ def dropout_schemas(tier: str) -> List[Schema]:
 
 def silu_glu_schemas(tier: str) -> List[Schema]:
     a, b = D("a"), D("b")
-    return [Schema("silu_glu", dict(input=P("input", (a, b)), gate=P("gate", (a, b)), mult=hyper("mult")))]
+    return [
+        Schema("silu_glu", dict(input=P("input", (a, b)), gate=P("gate", (a, b)), mult=hyper("mult"))),
+        # broadcast operands: one scale is shared by the output and both operand gradients all the same
+        Schema("silu_glu[gate broadcast over rows]", dict(input=P("input", (d1, a, b)), gate=P("gate", (b,)), mult=hyper("mult"))),
+    ]
 
 
 def residual_schemas(tier: str) -> Dict[str, List[Schema]]:
